@@ -50,14 +50,16 @@ Definition form_cases (s : store) (f : sx) : list sx :=
        triple (of_bool (Nat.eqb kind 3 || sortedb (leaf_cmp s) lfs)) (A 1) 0])
     (sx_list f).
 
-Fixpoint run_ops (s : store) (ops : list op) (forms : list sx) : list sx :=
+(* operation 14 = AnnotationStore::shrink_to_fit: performance only, the model does nothing *)
+Fixpoint run_ops (s : store) (ops : list sx) (forms : list sx) : list sx :=
   match ops with
   | [] => []
-  | o :: ops' =>
-      let '(s', r) := step s o in
-      let ro := sx_of_opout o r in
+  | x :: ops' =>
+      let '(s', ro) :=
+        if Z.eqb (sx_Z (sx_nth 0 x)) 14 then (s, L [A 1])
+        else let o := op_of_sx x in let '(s', r) := step s o in (s', sx_of_opout o r) in
       (triple ro ro 0 :: obs_state s') ++ form_cases s' (hd (L []) forms) ++ run_ops s' ops' (tl forms)
   end.
 
 Definition run_C01 (x : sx) : sx :=
-  L (run_ops empty_store (map op_of_sx (sx_list (sx_nth 0 x))) (sx_list (sx_nth 1 x))).
+  L (run_ops empty_store (sx_list (sx_nth 0 x)) (sx_list (sx_nth 1 x))).
